@@ -360,7 +360,22 @@ def check_C05(run):
             groups.append([w, r])
             run.distinct.add((wt, rt, vf.digest(v)))
             n += 1
-    cmds = with_group_resets(groups)
+    # an entry of 5000 and of 70000 bytes that the reading definition skips (unknown or deleted id), cut positions sampled
+    hgroups = []
+    strid = word(1, 8)
+    have = [t for t in vts if any(e["id"] == strid and e["act"] and e["e"]["k"] == "str" for e in types[t]["ents"])]
+    lack = [t for t in vts if not any(e["id"] == strid and e["act"] for e in types[t]["ents"])]
+    for j, wt in enumerate(have[::max(1, len(have) // (12 if thorough else 4))]):
+        for n_chars in (5000, 70000):
+            v = rep_value(types[wt], rng, j % 7)
+            for e in v["t"]:
+                if e["id"] == strid and e.get("p"):
+                    e["v"] = {"cw": 1, "b": [97 + (i % 26) for i in range(n_chars)]}
+            for rt in [lack[(j * 5 + q) % len(lack)] for q in range(2)] + [wt]:
+                hgroups.append([{"c": "w", "wk": "pedantic", "cap": 1 << 20, "items": [{"tid": wt, "v": v}], "nolog": 1, "lean": 1},
+                                {"c": "rcuts", "tid": rt, "rks": ["pedantic", "buffer", "sstream", "fstream", "fd", {"bounded": "sstream", "limit": 1 << 20}],
+                                 "src": "last", "stride": 211 if n_chars < 10000 else 3001, "lean": 1}])
+    cmds = with_group_resets(groups) + with_group_resets(hgroups, 1)
     run.samples = groups[0] + groups[-1]
     run_codec(run, 'C05', cmds, mc=[MC_WIRE, mc_session(run)])
     run.exhaustive = False
@@ -392,6 +407,11 @@ def check_C06(run):
             c = {"c": "wcaps", "tid": tid, "v": v, "wks": wks, "extra": 2}
             cmds.append(c)
             run.distinct.add((tid, vf.digest(v)))
+            if has_kind(S, ("hnd",)):
+                # the estimate must also cover references that need the wider classes (the 129th handle of a
+                # connection, descriptors above 2^31, negative references)
+                for rs in range(len(REF_SETS)):
+                    cmds.append({"c": "wcaps", "tid": tid, "v": v, "wks": wks[:3], "extra": 2, "refs": refs_for(rs) * 4})
     # every other value (medium and large): estimate vs. bytes only (no capacity sweep)
     for tid, S, v in stimuli_values(run, types, big=True, nrandom=0):
         if (tid, vf.digest(v)) not in run.distinct:
@@ -437,7 +457,22 @@ def check_C10(run):
             handle_opts(S, wf)
             groups.append([w, rf, wf])
             run.distinct.add((tid, vf.digest(v)))
-    cmds = with_group_resets(groups, 10)
+    # payloads of more than 64 KiB and more than 1 MiB (an implementation that moves large payloads in pieces must stop at
+    # the first piece that fails): a fault at every primitive call of the read, values not echoed into the trace
+    bgroups = []
+    for tid, n in (("vec<u8>", 70000), ("vec<u8>", (1 << 20) + 4097), ("vec<u8>", 3 * (1 << 20) + 17), ("str8", (1 << 20) + 300000),
+                   ("vec<u64>", 300000), ("vec<u16>", 600001), ("str32", 300000)):
+        if tid not in types:
+            continue
+        S = types[tid]
+        if S["k"] == "str":
+            v = {"cw": S["cw"], "b": [b for i in range(n) for b in word(97 + i % 26, S["cw"])]}
+        else:
+            v = {"n": [word((i * 7) % 251, S["e"]["w"]) for i in range(n)]}
+        for rk in ("pedantic", "sstream", {"bounded": "buffer", "limit": 1 << 26}):
+            bgroups.append([{"c": "w", "wk": "pedantic", "cap": 1 << 26, "items": [{"tid": tid, "v": v}], "nolog": 1, "lean": 1},
+                            {"c": "rfaults", "tid": tid, "rk": rk, "src": "last", "codes": [12, 14, 16], "lean": 1}])
+    cmds = with_group_resets(groups, 10) + with_group_resets(bgroups, 1)
     run.samples = groups[0]
     run_codec(run, 'C10', cmds, mc=mc_session(run))      # design level: a peer stops at the first error
     # the RPC layer: a fault at every primitive of each of the four pipe ends of a call
